@@ -396,6 +396,9 @@ func main() {
 							Case: cse, Observe: base, Expect: want})
 					}
 					ast.ReleaseAST(tree)
+					if ci%997 == 5 && li == 0 {
+						run.Sample(map[string]any{"payload": c.Payload, "exprs": c.Exprs, "place": c.Place, "nests": c.Nests, "sql": text, "findings": base, "reference": want})
+					}
 					if ci%7 == 0 {
 						_ = laws("ScanSQL", map[string]any{"kind": "injection-text", "sql": text}, func(s *security.Scanner) *security.ScanResult { return s.ScanSQL(text) })
 					}
